@@ -126,10 +126,10 @@ def c11_rest(ctx, facts, nr, memo):
     allowed = {roles.inherent(facts, REQ, "as_reader").id, roles.inherent(facts, REQ, "upgrade").id} | ts["emptiers"]
     for u in sorted(ts["users"] | ts["emptiers"]):
         ctx.ob("C11.3", "data_reader-user|%s" % u, "only as_reader borrows the body reader and only upgrade's helper takes it", u in allowed, u)
-    fr = method(facts, T_READ, FR, "read")
-    clears = [bb for h, bb, kind, x in facts.field_writes(FR, "inner") if h.id == fr.id and kind == "assign" and not fr.blocks[bb]["cleanup"]]
-    drops = [bb for bb, t in fr.drops() if pl_fields(t["pl"]) == ["inner"] and not fr.blocks[bb]["cleanup"]]
-    ctx.ob("C11.3", "%s|releases-at-eof" % fr.id, "a fully read large/chunked body releases the socket reader immediately (the fused reader drops its inner reader at EOF)", bool(clears) and bool(drops), "%s:%d" % (fr.file, fr.line))
+    import fused_rules
+    fres = fused_rules.fused_rules(ctx, None, None, None)
+    fr = fused_rules.fmodel(facts).f0
+    ctx.ob("C11.3", "%s|releases-at-eof" % fr.id, "a fully read large/chunked body releases the socket reader immediately (the fused reader drops its inner reader at EOF)", fres["eof"], "%s:%d" % (fr.file, fr.line))
 
     # ---- C11.4 the HTTPS-only synchronisation is dead here
     ok = shared.tls_const_false(ctx)
